@@ -9,7 +9,7 @@ TS-STK  SATSolver::decide pushes exactly one state on every non-UNSAT path and n
 TS-BAL  in topdown_h every decide(..) whose result is not UNSAT is followed on every path by
         exactly one pop() before the next decide or the return; the UNSAT arm pops nothing.
 """
-from . import mir
+from . import mir, tdctx
 from .base import inst, OK, VIOLATION, UNDECIDED, strip, gamma_arms
 from .facts import CheckerError
 from .mir import show
@@ -215,22 +215,24 @@ def ts_stk(prog):
 
 
 def ts_bal(prog):
-    fn = prog.find1(name="topdown_h", in_trait="builder::decision_nnf::builder::DecisionNNFBuilder", unit="rsdd-lib")
-    te = fn.terms
-    cfg = fn.cfg
+    top, ctxs = tdctx.contexts(prog)
     out = []
-    decs = [cs for cs in te.calls if cs.callee.name == "decide" and "SATSolver" in cs.callee.key()]
-    pop_bbs = {cs.bb for cs in te.calls if cs.callee.name == "pop" and "SATSolver" in cs.callee.key()}
-    dec_bbs = {cs.bb for cs in decs}
-    if len(decs) < 2:
-        raise CheckerError("topdown_h: expected two decide calls")
-    for cs in decs:
-        lit = cs.args[1]
-        pol = lit[2][1][2] if mir.is_call(lit, "new") and lit[2][1][0] == "const" else "?"
+    if len(ctxs) < 2:
+        out.append(inst("TS-BAL", "%s:decides" % top.npath, UNDECIDED, top, None,
+                        "expected one decide per polarity in topdown_h or in a helper it calls, found %d" % len(ctxs)))
+    helper_bbs = tdctx.helper_calls(ctxs)
+    top_pops = {cs.bb for cs in top.terms.calls if cs.callee.name == "pop" and "SATSolver" in cs.callee.key()}
+    top_stops = {cs.bb for cs in top.terms.calls if tdctx.is_decide(cs)} | helper_bbs
+    for ctx in ctxs:
+        fn, cs = ctx.fn, ctx.cs
+        te = fn.terms
+        pop_bbs = {c.bb for c in te.calls if c.callee.name == "pop" and "SATSolver" in c.callee.key()}
+        dec_bbs = {c.bb for c in te.calls if tdctx.is_decide(c)}
+        pol = ctx.pol
         # the switch on the decide result
         sw = [d for d, (c, vm) in te.switch_term.items() if c == ("discr", cs.term)]
         if len(sw) != 1:
-            out.append(inst("TS-BAL", "%s:decide(%s)" % (fn.npath, pol), UNDECIDED, fn, cs.line,
+            out.append(inst("TS-BAL", "%s:decide(%s)" % (top.npath, pol), UNDECIDED, fn, cs.line,
                             "result of decide is not matched directly"))
             continue
         d = sw[0]
@@ -244,7 +246,7 @@ def ts_bal(prog):
                 edges[name] = t["otherwise"]
         for name, b in sorted(edges.items()):
             r = count_until(fn, b, lambda x: x in pop_bbs, lambda x: x in dec_bbs, count_start=True)
-            key = "%s:decide(%s):%s" % (fn.npath, pol, name)
+            key = "%s:decide(%s):%s" % (top.npath, pol, name)
             if r is None:
                 out.append(inst("TS-BAL", key, OK, fn, cs.line, "arm diverges"))
                 continue
@@ -256,10 +258,18 @@ def ts_bal(prog):
                                  "%d..%s" % (r[0], "∞" if r[1] >= INF else r[1]), want[0],
                                  "too deep" if r[0] < want[0] else "too shallow")) if not ok else
                             ("%d pop on every path" % want[0])))
+        if ctx.via is not None:
+            # the helper balances its own decide: no pop in it before the decide, none in the caller after it
+            pre = (0, 0) if 0 in dec_bbs else count_until(fn, 0, lambda x: x in pop_bbs, lambda x: x in dec_bbs, count_start=True)
+            post = count_until(top, ctx.via.bb, lambda x: x in top_pops, lambda x: x in top_stops, count_start=False)
+            ok = (pre is None or pre == (0, 0)) and (post is None or post == (0, 0))
+            out.append(inst("TS-BAL", "%s:decide(%s):around-helper" % (top.npath, pol), OK if ok else VIOLATION, fn,
+                            ctx.via.line, "no pop outside the arms of the decide" if ok else
+                            "pops before the decide in %s: %s; pops in topdown_h after the call: %s" % (fn.name, pre, post)))
     # no pop before the first decide (on paths from entry)
-    first = count_until(fn, 0, lambda x: x in pop_bbs, lambda x: x in dec_bbs, count_start=True)
+    first = count_until(top, 0, lambda x: x in top_pops, lambda x: x in top_stops, count_start=True)
     ok = first is None or first == (0, 0)
-    out.append(inst("TS-BAL", "%s:entry" % fn.npath, OK if ok else VIOLATION, fn, None,
+    out.append(inst("TS-BAL", "%s:entry" % top.npath, OK if ok else VIOLATION, top, None,
                     "no pop before the first decide" if ok else "pop before any decide: %s" % (first,)))
     return out
 
